@@ -17,6 +17,13 @@ ASSUMPTIONS = [
 TOL = 1e-11
 
 
+def _np_angles(stack, dt):
+    """the angles as numpy scalars of the given dtype (how they arrive from np.loadtxt, pandas, a float32 design vector, ...)"""
+    if not dt:
+        return list(stack)
+    return [np.dtype(dt).type(a) for a in stack]
+
+
 def _read(case_stack, plyts, props, offset, uniform_form=False):
     from compmech.composite.laminate import read_stack
     with package('read_stack'):
@@ -56,7 +63,14 @@ def check_laminate(case, ctx):
               'form:%s' % ('uniform' if case['uniform'] else 'per-ply'), 'numbers:' + case.get('numtype', 'float'),
               'mat-entries:%s' % '/'.join(sorted(set(str(len(p)) for p in props))))
 
-    lam = _read(stack, plyts, props, d)
+    dt = case.get('angle_dtype')
+    if dt:
+        ctx.label('angles:numpy-' + dt)
+        npstack = _np_angles(stack, dt)
+        stack = [float(a) for a in npstack]      # the values the numpy scalars actually hold
+        lam = _read(npstack, plyts, props, d)
+    else:
+        lam = _read(stack, plyts, props, d)
     got = _blocks(lam)
     A, B, D, E, ABD, ABDE = clt.abd(stack, plyts, props, d)
     # (i) differential against the reference
@@ -186,12 +200,21 @@ def _numtype(lam, kind, ints):
 
 
 def _laminate_strategy(tier):
-    return st.builds(lambda lam, d2, perm, kind, ints: dict(_numtype(lam, kind, ints), d2=d2, perm=perm, numtype=kind),
+    def mk(lam, d2, perm, kind, ints, adt):
+        c = dict(_numtype(lam, kind, ints), d2=d2, perm=perm, numtype=kind)
+        # numpy scalar angles: float dtypes for any angle, integer dtypes for whole-degree angles
+        if adt in ('float32', 'float64'):
+            c['angle_dtype'] = adt
+        elif adt in ('int16', 'int64') and kind in ('int-angles', 'int-both'):
+            c['angle_dtype'] = adt
+        return c
+    return st.builds(mk,
                      gen.laminate_case(max_plies=12),
                      gen.fl(-3., 3.),
                      st.lists(st.integers(0, 1000), min_size=1, max_size=12),
                      st.sampled_from(['float', 'float', 'float', 'float', 'int-thickness', 'int-angles', 'int-both']),
-                     st.lists(st.integers(0, 3), min_size=1, max_size=12))
+                     st.lists(st.integers(0, 3), min_size=1, max_size=12),
+                     st.sampled_from([None, None, None, 'float32', 'float64', 'int16', 'int64']))
 
 
 def _panel_strategy(tier):
